@@ -817,7 +817,24 @@ where
 
             let missing = matches!(err, Message::Missing(_));
 
-            if catch || (missing && orig_args.len() == args.len()) || (!missing && err.can_catch())
+            // A repetition ends with the first iteration that consumes nothing from the command
+            // line and the value of that iteration is discarded. Such an iteration can also
+            // fail: once items given on the command line are used up a named argument falls
+            // back to its environment variable and that value might not parse or validate
+            // (position is `None` - the value didn't come from the command line). Values given
+            // on the command line take priority over the variable, so this ends the repetition
+            // as well instead of failing the whole parser.
+            let untouched = *len != usize::MAX
+                && orig_args.len() == args.len()
+                && matches!(
+                    err,
+                    Message::ParseFailed(None, _) | Message::GuardFailed(None, _)
+                );
+
+            if catch
+                || untouched
+                || (missing && orig_args.len() == args.len())
+                || (!missing && err.can_catch())
             {
                 std::mem::swap(&mut orig_args, args);
                 #[cfg(feature = "autocomplete")]
